@@ -123,18 +123,17 @@ def run(rep, tier, seed, replay_file=None):
                                shards=4 if quick else 6, key_fn=key_fn)
     if hists:
         rep.sample(dict(kind="recorded concurrent history", events=hists[0][:10]))
-        bad = copy.deepcopy(max(hists, key=len))
-        flipped = False
-        for e in bad:
-            if e.get("ev") == "ret" and e.get("res") in ("true", "false"):
-                e["res"] = "true" if e["res"] == "false" else "false"
-                flipped = True
-                break
-        if flipped:
-            acc, r, info = trace.validate(COMP, "SetLinTrace", "SetLinTrace.cfg", [bad])
-            rep.self_test("trace spec rejects a flipped return value", acc is False, str(info)[:200])
-        else:
-            rep.self_test("trace spec rejects a flipped return value", False, "no boolean return in the longest history")
+        # binding self-test on a history without concurrency (a flipped value inside a concurrent run may still be
+        # linearizable, which made this self-test flaky): addcheck(1) -> false, then check(1) must be "true"
+        def seqhist(ans):
+            return [dict(ev="config", ordered=0, seq=1),
+                    dict(ev="call", id=1, op="addcheck", arg=1, t="t0", seq=2), dict(ev="ret", id=1, res="false", t="t0", seq=3),
+                    dict(ev="call", id=2, op="check", arg=1, t="t0", seq=4), dict(ev="ret", id=2, res=ans, t="t0", seq=5),
+                    dict(ev="final", n=1, items=[1], seq=6)]
+        acc, r, info = trace.validate(COMP, "SetLinTrace", "SetLinTrace.cfg", [seqhist("true")])
+        rep.self_test("trace spec accepts a correct sequential history", acc is True, str(info)[:200])
+        acc, r, info = trace.validate(COMP, "SetLinTrace", "SetLinTrace.cfg", [seqhist("false")])
+        rep.self_test("trace spec rejects a flipped return value", acc is False, str(info)[:200])
     phases["concurrent"] = round(time.time() - t0, 1)
     rep.cov["rule"] = ("behaviours = call sequences of SetSpec (all of length 3; one shortest per edge of the abstract graph "
                        "extended by a how-it-became-ordered ghost; random walks of 30 calls) replayed on real dt.Set values with "
